@@ -117,6 +117,10 @@ def node_ins(node) -> list[str]:
 def in_scope(node) -> bool:
     """The property's quantifier: acyclic name-based dependency graph, chains listed in a valid order."""
     t = node["t"]
+    if set(node_ins(node)) & set(node_outs(node)):
+        # an input that is also an output is a self-coupling (CouplingStructure.is_self_coupled): the
+        # composition has a cycle; MDAChain would solve it with an MDA.  Probed only.
+        return False
     if t == "L":
         return True
     if not all(in_scope(k) for k in node["kids"]):
@@ -392,7 +396,7 @@ class Gen:
             outs = [self.fresh() for _ in range(rng.pick([1, 1, 1, 2, 2, 3]))]
             # overwritten variables: rewrite an existing variable nobody has read since (dead write),
             # or one of the discipline's own inputs (an input that is also an output)
-            cands = [v for v in avail if v not in forbidden]
+            cands = [v for v in avail if v not in forbidden and (not self.scope or v not in ins)]
             if cands and rng.chance(0.18):
                 v = rng.pick(cands)
                 if v not in outs:
@@ -1049,6 +1053,27 @@ def neighbours(case, rng):
 # =========================================================================== run
 
 
+def fine_key(key: str, small) -> str:
+    """Coarse oracle key refined by the features of the *shrunk* failing case (stable classification)."""
+    tags = []
+    writers: dict[str, int] = {}
+    for l in leaves(small["proc"]):
+        for o, _ in l["spec"]["outs"]:
+            writers[o] = writers.get(o, 0) + 1
+    if any(v > 1 for v in writers.values()):
+        tags.append("var-written-twice")
+    kinds = sorted({n["t"] for n in _all_nodes(small["proc"]) if n["t"] != "L"})
+    tags.append("nodes=" + "".join(kinds))
+    lk = sorted({l["spec"]["kind"] for l in leaves(small["proc"])} - {"dense"})
+    if lk:
+        tags.append("jac=" + "+".join(lk))
+    if len(small["reqs"]) > 1:
+        tags.append("history")
+    if any(r["all"] for r in small["reqs"]):
+        tags.append("compute-all")
+    return key + "|" + ",".join(tags)
+
+
 def fails_with(key):
     def f(c):
         return any(k == key for k, _ in oracle(c, impl_run(c)))
@@ -1097,11 +1122,14 @@ def check_cases(res: Result, cases, scope: bool, rng) -> None:
         bad = oracle(case, run) if scope else []
         for key, msg in bad:
             res.count("oracle-fail:" + key)
-            if any(v.key == key and v.kind == "oracle" for v in res.violations):
+            n_shrunk = sum(1 for v in res.violations if v.kind == "oracle" and v.key.split("|")[0] == key)
+            if n_shrunk >= 4 or res.extra.setdefault("_shrinks", {}).get(key, 0) >= 8:
                 continue
+            res.extra["_shrinks"][key] = res.extra["_shrinks"].get(key, 0) + 1
             small = shrink(case, fails_with(key))
             r2 = impl_run(small)
-            res.violate("oracle", key, msg, {
+            msg = "; ".join(m for k, m in oracle(small, r2) if k == key) or msg
+            res.violate("oracle", fine_key(key, small), msg, {
                 "case": small,
                 "impl": impl_lines(small, r2),
                 "oracle": [m for k, m in oracle(small, r2) if k == key],
